@@ -802,13 +802,14 @@ def removed_stays_removed(W, n, given=None):
     for k in range(0 if given else n):
         a, i = rnd.choice([(70, 50), (70, 0), (0, 50)])
         pre = []
-        for sid in ("s1", "s2"):
+        sids = ["s1", "s2", "s3", "s4", "s5", "s6"]
+        for sid in sids:
             pre += [{"op": "SetAuth", "sid": sid, "v": rnd.randint(1, 3)}, {"op": "SetTok", "sid": sid, "v": rnd.randint(1, 3)}]
         pre.append({"op": "flood", "sid": "s1", "v": rnd.choice([100, 300, 600])})
         pre.append({"op": "tick", "v": rnd.choice([1, 5, 20])})
-        ops = [{"op": "sweep", "sid": "s1", "v": 0, "thr": 9} for _ in range(4)] + [{"op": "sweep", "sid": "s1", "v": 0, "thr": 8} for _ in range(2)]
-        for thr, sid in ((1, "s1"), (2, "s2")):
-            ops += [{"op": op, "sid": sid, "v": 0, "thr": thr} for op in (rnd.choice(["GetTok", "GetAuth"]), "Remove", "GetTok", "GetAuth", "GetTok")]
+        ops = [{"op": "sweep", "sid": "s1", "v": 0, "thr": 9} for _ in range(4)] + [{"op": "sweep", "sid": "s1", "v": 0, "thr": 8} for _ in range(3)]
+        for thr, sid in enumerate(sids):
+            ops += [{"op": op, "sid": sid, "v": 0, "thr": thr + 1} for op in (rnd.choice(["GetTok", "GetAuth"]), "Remove", "GetTok", "GetAuth")]
         scen.append({"id": "rsr/%d" % k, "store": "memory", "abs": a, "idle": i, "conc": True, "pre": pre, "ops": ops})
     trace = W.drive("TestStore", scen, "rsr", env_extra={"VERIF_CLOCK_JITTER": "1"})
     v = W.validate(trace, "rsr", module="RemovedTrace")
